@@ -314,6 +314,8 @@ class Ctx(object):
             "wall_s": round(time.time() - self.t0, 3),
             "violations": violations,
         }
+        if os.environ.get("VERIF_NO_EVIDENCE"):
+            return  # sensitivity runs against a scratch copy must not overwrite real evidence
         d = os.path.join(ROOT, "evidence")
         os.makedirs(d, exist_ok=True)
         tmp = os.path.join(d, "%s.json.tmp" % self.prop)
